@@ -2,10 +2,12 @@
 C04 — the mutation space is exactly the set of sequences the hard constraints allow.
 Proved so far: unsolvable iff the language is empty; the initial sequence lies in the space for every
 tape (C15.constrainSequence_spec); restriction soundness (EnforcedSound) for EnforceChoice / AvoidChanges.
-The exactness of `from_optimization_problem` (merge / split / write-back invariant) is decided by the
-correspondence + the 4^L brute-force oracle: PARTIAL (see DESIGN.md).
+`mergeWith_exact`: the merge step (new restriction × contiguous underlying choices) yields exactly the
+compatible words.  The remaining pieces of `from_optimization_problem` (varying-region split and write-back
+invariant over the whole fold) are decided by the correspondence + the 4^L brute-force oracle: PARTIAL.
 -/
 import DnaModel.Model.Builtin
+import DnaModel.Proofs.Merge
 import DnaModel.Props.C15
 import DnaModel.Props.C10
 set_option linter.unusedVariables false
@@ -97,5 +99,53 @@ theorem enforceChoice_sound (choices : List Seq) (a b : Nat) (s sub : Seq)
 theorem avoidChanges_restrict (target : Seq) (a b : Nat) (s : Seq) :
     restrict (K := Rat) (.avoidChanges 0 target (.loc ⟨a, b, 1⟩)) s = some [⟨a, b, [pySlice s a b]⟩] := by
   simp [restrict, Score.eq, Score.zero]
+
+section MergeExact
+open Choice Merge
+theorem contig_sorted (a : Nat) (os : List Choice) (h : Contig a os) :
+    os.Pairwise (fun x y => (decide (x.start ≤ y.start)) = true) := by
+  induction os generalizing a with
+  | nil => exact List.Pairwise.nil
+  | cons o os ih =>
+    obtain ⟨h1, h2, h3⟩ := h
+    refine List.Pairwise.cons ?_ (ih o.stop h3)
+    intro y hy
+    have := (contig_ge o.stop os h3).2 y hy
+    simp; omega
+
+/-- **`MutationChoice.merge_with` is exact** (the step that combines a new restriction with the choices already in
+    place): if the underlying choices tile a span contiguously, the new choice lies inside that span and every
+    variant has its segment's length, then the merged choice spans the whole tile and its variants are exactly the
+    words that satisfy the new choice and every underlying one -/
+theorem mergeWith_exact (self : Choice) (first : Choice) (rest : List Choice)
+    (hc : Contig first.start (first :: rest)) (h1 : first.start ≤ self.start) (h2 : self.start ≤ self.stop)
+    (h3 : self.stop ≤ stopOf first.start (first :: rest))
+    (hov : ∀ o ∈ first :: rest, ∀ v ∈ o.variants, v.length = o.stop - o.start) :
+    ∃ m, self.mergeWith (first :: rest) = some m ∧ m.start = first.start ∧ m.stop = stopOf first.start (first :: rest) ∧
+      ∀ sq, sq ∈ m.variants ↔
+        sq.length = m.stop - m.start ∧ sl sq (self.start - m.start) (self.stop - self.start) ∈ self.variants ∧
+        ∀ o ∈ first :: rest, sl sq (o.start - m.start) (o.stop - o.start) ∈ o.variants := by
+  have hsorted : (first :: rest).mergeSort (fun a b => decide (a.start ≤ b.start)) = first :: rest :=
+    List.mergeSort_of_pairwise (contig_sorted first.start _ hc)
+  have hlast : ∃ l, (first :: rest).getLast? = some l ∧ l.stop = stopOf first.start (first :: rest) := by
+    clear hsorted h3 hov h1
+    induction rest generalizing first with
+    | nil => exact ⟨first, rfl, rfl⟩
+    | cons r rs ih =>
+      obtain ⟨c1, c2, c3⟩ := hc
+      obtain ⟨d1, d2, d3⟩ := c3
+      obtain ⟨l, hl1, hl2⟩ := ih r ⟨rfl, d2, d3⟩
+      refine ⟨l, by simpa [List.getLast?_cons_cons] using hl1, ?_⟩
+      simp only [stopOf] at hl2 ⊢
+      rw [hl2]
+  obtain ⟨l, hl1, hl2⟩ := hlast
+  refine ⟨{ start := first.start, stop := l.stop, variants := mergeCore self first.start (first :: rest) }, ?_, rfl, hl2, ?_⟩
+  · simp only [mergeWith, hsorted, List.head?_cons, hl1]
+  · intro sq
+    simp only
+    rw [mergeCore_exact self first.start (first :: rest) sq hc h1 h2 h3 hov, hl2]
+
+
+end MergeExact
 
 end Dna.C04
